@@ -64,6 +64,16 @@ CHECKS = {
              'every path of the write corpus explored, z3 proves that no '
              'allocation/inventory/association in the post-state dangles.',
         ref='DESIGN.md section 5 C08'),
+    'C09': dict(
+        text='One inductive step from every forest: the forest over the pool '
+             '(all 16 forests on 3 providers quick, all 125 on 4 thorough), '
+             'the operands and the request (POST under any parent / missing '
+             '/ self, PUT to every new parent incl. descendants, DELETE) are '
+             'explorer decisions; microversion minor (0..39) and generations '
+             'are symbolic; z3 decides the version branches and proves the '
+             'status the statement prescribes; forest and root pointers are '
+             'checked on the tables and through GET.',
+        ref='DESIGN.md section 5 C09'),
     'C10': dict(
         text='One inductive step over the write corpus with symbolic stored '
              'and supplied generations: z3 proves monotonicity, strict '
